@@ -130,13 +130,15 @@ ChooseBranch(brs, v, names, o) ==
 
 \* ---- what reading back returns (C01 normalisation) ------------------------------------
 \* [ok |-> TRUE, v] | [ok |-> FALSE]  (FALSE: outside the domain, e.g. unspecified union choice, float overflow)
-RECURSIVE Norm(_, _, _, _)
-NormSeq(t, xs, names, o) ==
-  LET rs == MapSeq(LAMBDA x : Norm(t, x, names, o), xs) IN
+\* named = TRUE: what a reader with return_named_type=True returns - (full name, value) pairs at union positions whose branch is a named type
+RECURSIVE NormN(_, _, _, _, _)
+Norm(t, v, names, o) == NormN(t, v, names, o, FALSE)
+NormSeq(t, xs, names, o, named) ==
+  LET rs == MapSeq(LAMBDA x : NormN(t, x, names, o, named), xs) IN
   IF \A i \in 1..Len(xs) : rs[i].ok THEN [ok |-> TRUE, vs |-> MapSeq(LAMBDA r : r.v, rs)] ELSE [ok |-> FALSE]
 FieldSrc(f, v) == IF HasKey(v, f.name) THEN ValAt(v, f.name) ELSE IF f.hasdef THEN DefVal(f.def) ELSE VNone
 ToDouble(v) == IF v.p = "int" THEN IntToDouble(IOf(v)) ELSE [ok |-> TRUE, f |-> FOf(v)]
-Norm(t0, v0, names, o) ==
+NormN(t0, v0, names, o, named) ==
   LET t == Deref(t0, names)
       pr == Prep(t, v0)
       v == pr.v
@@ -150,13 +152,16 @@ Norm(t0, v0, names, o) ==
     [] t.k = "float" -> LET d == ToDouble(v) IN
                         IF ~d.ok THEN bad
                         ELSE LET r == RoundToF32(d.f) IN IF r.ok THEN ok(VFloat(r.f)) ELSE bad
-    [] t.k = "array" -> LET r == NormSeq(t.items, v.it, names, o) IN IF r.ok THEN ok(VList(r.vs)) ELSE bad
-    [] t.k = "map" -> LET r == NormSeq(t.values, v.vs, names, o) IN IF r.ok THEN ok(VDict(v.ks, r.vs)) ELSE bad
+    [] t.k = "array" -> LET r == NormSeq(t.items, v.it, names, o, named) IN IF r.ok THEN ok(VList(r.vs)) ELSE bad
+    [] t.k = "map" -> LET r == NormSeq(t.values, v.vs, names, o, named) IN IF r.ok THEN ok(VDict(v.ks, r.vs)) ELSE bad
     [] t.k = "record" ->
-         LET rs == MapSeq(LAMBDA f : Norm(f.type, FieldSrc(f, v), names, o), t.fields) IN
+         LET rs == MapSeq(LAMBDA f : NormN(f.type, FieldSrc(f, v), names, o, named), t.fields) IN
          IF \A i \in 1..Len(t.fields) : rs[i].ok
          THEN ok(VDict(MapSeq(LAMBDA f : VStr(f.name), t.fields), MapSeq(LAMBDA r : r.v, rs)))
          ELSE bad
     [] t.k = "union" -> LET c == ChooseBranch(t.br, v, names, o) IN
-                        IF c.st = "ok" THEN Norm(t.br[c.i], c.v, names, o) ELSE bad
+                        IF c.st # "ok" THEN bad
+                        ELSE LET r == NormN(t.br[c.i], c.v, names, o, named)
+                                 b == Deref(t.br[c.i], names)
+                             IN IF r.ok /\ named /\ IsNamedKind(b.k) THEN [ok |-> TRUE, v |-> VTuple(<< VStr(b.name), r.v >>)] ELSE r
 =============================================================================
